@@ -108,6 +108,7 @@ Proof. apply (gen_create_top h Ev); auto using ev_with_p, ev_ctor, ev_cancel. Qe
 Lemma ev_run_inits ds : forall rs h, Ev rs -> Ev (fst (run_inits rs h ds)).
 Proof.
   induction ds as [|d ds IH]; intros rs h H; cbn [run_inits]; [exact H|].
+  destruct (lookup_i (sc_cache (get_scope (rs_p rs) h)) (ds_ident d)); [apply IH; exact H|].
   pose proof (ev_create_top rs h d H) as H1.
   destruct (create_top rs h d) as [rs1 [a|e|]]; cbn [fst] in *; try exact H1. apply IH. exact H1.
 Qed.
@@ -147,6 +148,7 @@ Section OnceMore.
   Lemma once_run_inits ds : (forall d, In d ds -> In d c) -> forall rs h, Once c F rs -> Once c F (fst (run_inits rs h ds)).
   Proof.
     induction ds as [|d ds IH]; intros Hin rs h H; cbn [run_inits]; [exact H|].
+    destruct (lookup_i (sc_cache (get_scope (rs_p rs) h)) (ds_ident d)); [apply IH; [intros x Hx; apply Hin; right; exact Hx|exact H]|].
     pose proof (create_top_lists_each_instance_once c F c_ok rs h d (Hin d (or_introl eq_refl)) H) as H1.
     destruct (create_top rs h d) as [rs1 [a|e|]]; cbn [fst] in *; try exact H1.
     apply IH; [intros x Hx; apply Hin; right; exact Hx|exact H1].
